@@ -54,6 +54,7 @@ def _tid(tok):
 def canon_session_line(line):
     """messages of different transactions may be interleaved on the wire in any order (forwarding tasks vs the
     handler): per step and session, order by transaction id, keeping the arrival order within a transaction"""
+    if line == "ok": return line
     items = parse_out(line)
     closing = {s for s, t in items if t == "closed"}
     # whether the cancellation of a closing session's own pending acquire still reaches its socket is a race
